@@ -130,10 +130,73 @@ def twin_bytes(raw):
     return b.getvalue(), changed
 
 
+def variant_bytes(raw):
+    """same document in an alternative but accepted ENCODING: every tagged block whose key is not a big-length key gets
+    the other signature (8BIM <-> 8B64).  A reader that learns from what it has seen (a growing registry of keys,
+    signatures, encodings) then treats the original document differently afterwards."""
+    from psd_tools.psd.tagged_blocks import TaggedBlock
+
+    low = PSD.read(io.BytesIO(raw))
+    changed = 0
+
+    def swap(blocks):
+        nonlocal changed
+        if not blocks:
+            return
+        for key in list(blocks.keys()):
+            blk = blocks[key]
+            k = getattr(blk.key, "value", blk.key)
+            if k not in TaggedBlock._BIG_KEYS and blk.signature in (b"8BIM", b"8B64"):
+                blk.signature = b"8B64" if blk.signature == b"8BIM" else b"8BIM"
+                changed += 1
+
+    swap(low.layer_and_mask_information.tagged_blocks)
+    li = low._get_layer_info()
+    if li is not None and li.layer_records:
+        for rec in li.layer_records:
+            swap(rec.tagged_blocks)
+    b = io.BytesIO()
+    low.write(b)
+    return b.getvalue(), changed
+
+
+def cross_move(path_a, path_b):
+    """open two documents, move the first top-level layer of A into B, save B: what the library returns and saves for
+    the pair must not depend on earlier pairs processed in this interpreter"""
+    out = {}
+    a = PSDImage.open(path_a)
+    b = PSDImage.open(path_b)
+    if len(a) == 0:
+        return {"skipped": "empty"}
+    layer = a[0]
+    layer.move_to_group(b)
+    ids = []
+    for l in b.descendants():
+        try:
+            ids.append(l.layer_id)
+        except Exception:
+            ids.append(None)
+    out["ids"] = sha(repr(ids).encode())
+    out["names"] = sha(repr([l.name for l in b.descendants()]).encode("utf8", "replace"))
+    buf = io.BytesIO()
+    try:
+        b.save(buf)
+        out["save"] = sha(buf.getvalue())
+    except Exception as e:  # the outcome class is the observation
+        out["save"] = "exc:" + type(e).__name__
+    return out
+
+
 def observe(item, with_composite):
     out = {}
     try:
-        if item.startswith("twin:"):
+        if item.startswith("xmove:"):
+            pa, pb = item[6:].split("|")
+            return cross_move(pa, pb)
+        if item.startswith("variant:"):
+            raw, changed = variant_bytes(open(item[8:], "rb").read())
+            out["variant_blocks_changed"] = changed
+        elif item.startswith("twin:"):
             raw, changed = twin_bytes(open(item[5:], "rb").read())
             out["twin_payloads_changed"] = changed
         elif item.startswith("gen:"):
